@@ -158,7 +158,7 @@ def applyOneA (s : AMap) (e : Event) : AMap := match keyOf e with
   | some k => s.set k e
 
 def authStepA (m : List Event) (rejected : List ID) (s : AMap) (e : Event) : AMap :=
-  match allowedFreshNoValid e (Provider.ofEvents (providerEvents m rejected s.toSMap e)) false with
+  match allowedFresh e (Provider.ofEvents (providerEvents m rejected s.toSMap e)) false with
   | .ok => applyOneA s e
   | _ => s
 
